@@ -545,3 +545,15 @@ def run_c18(run, scratch, seed, tier):
 
 
 PROPS["C18"] = {"props_file": "C18.v", "run": run_c18}
+
+
+# ---------------------------------------------------------------- C19
+def run_c19(run, scratch, seed, tier):
+    st = suites.wiring_suite(run, scratch, seed, sizes(tier, 150, 2500))
+    run.add_suite("wiring", st)
+    run.cov["rule"] = st["rule"]
+    bst = backtest_suite(run, scratch, seed + 1, sizes(tier, 100, 1500))      # lazily created string children everywhere
+    run.add_suite("backtest_runs", bst)
+
+
+PROPS["C19"] = {"props_file": "C19.v", "run": run_c19}
